@@ -20,6 +20,10 @@ estimates through the shared policy, MADDPG actions and centralised-critic value
 `obs_channels_to_first` moves the channel axis of rank-3 / rank-4 arrays (values included), leaves other
 ranks alone, rejects non-arrays.
 
+Encoder-consistency suite (`consist`): DQN/CQN/DDPG/TD3/PPO/MADDPG/MATD3/IPPO are built with normalising
+encoders (CNN / multi-input layer_norm=True -> BatchNorm, MLP layer_norm), go through training mode and one real
+learn() step, then — through public entry points only — the Q-values / greedy action / value estimate of one
+observation alone (unbatched, batch of one) must equal those inside batches of other size, composition, order.
 Source translation (`pre_gate`, before the Lean gate): `py2lean_obs.py` translates the source text of
 `obs_channels_to_first`, `obs_to_tensor`, `maybe_add_batch_dim`, `get_vect_dim`, `preprocess_observation`
 (agilerl/utils/algo_utils.py of the tree under test; the SHAPE logic, values are cut) into
@@ -83,6 +87,8 @@ F_MD_STEPENV = "C15-multidiscrete-step-env"
 F_NONCONTIG = "C15-noncontiguous-step-env"
 F_AGENT_ORDER = "C15-agent-order"
 F_BOX0 = "C15-box-rank0"
+F_DQN_EVAL = "C15-dqn-eval-mode"
+F_PPO_EVAL = "C15-ppo-eval-mode"
 
 
 # ----------------------------------------------------------------------------- spaces and observations
@@ -919,6 +925,278 @@ def _run_ma_action(case):
     return [], [], problems, tags
 
 
+# ----------------------------------------------------------------------------- op: consist
+# Batch-composition independence on REAL agents for every encoder configuration: what an agent reports with
+# exploration off for ONE observation (greedy action, Q-values, value estimate) must not depend on which other
+# observations / environments share the call — also when the encoder has layers that ARE batch-dependent in
+# train mode (CNN layer_norm=True -> BatchNorm), after the agent has been in training mode and has learned once
+# (so BatchNorm running statistics differ from the statistics of any batch).  Only public entry points are used.
+CONSIST_SINGLE = ("dqn", "cqn", "ddpg", "td3", "ppo")
+CONSIST_MULTI = ("maddpg", "matd3", "ippo")
+WARM_NOTES: list = []
+
+
+def enc_cfg(kind, enc):
+    norm = enc == "norm"
+    head = {"hidden_size": [8]}
+    if kind == "image":
+        return {"encoder_config": {"channel_size": [2], "kernel_size": [2], "stride_size": [1], "layer_norm": norm},
+                "head_config": head}
+    if kind == "vector":
+        return {"encoder_config": {"hidden_size": [8], "layer_norm": norm}, "head_config": head}
+    if kind == "dict":
+        return {"encoder_config": {"cnn_config": {"channel_size": [2], "kernel_size": [2], "stride_size": [1],
+                                                  "layer_norm": norm},
+                                   "mlp_config": {"hidden_size": [8], "layer_norm": norm}},
+                "head_config": head}
+    raise InfraError(kind)
+
+
+def consist_space(kind):
+    from gymnasium import spaces
+    img = spaces.Box(0, 255, (1, 4, 4), dtype=np.uint8)
+    vec = spaces.Box(-4, 4, (3,), dtype=np.float32)
+    return {"image": img, "vector": vec, "dict": spaces.Dict({"img": img, "vec": vec})}[kind]
+
+
+def consist_rows(kind, n, seed):
+    """n unbatched observations"""
+    r = np.random.default_rng(seed)
+
+    def one():
+        img = r.integers(0, 256, (1, 4, 4)).astype(np.uint8)
+        vec = (r.integers(-16, 17, (3,)) / 4.0).astype(np.float32)
+        return {"image": img, "vector": vec, "dict": {"vec": vec, "img": img}}[kind]
+    return [one() for _ in range(n)]
+
+
+def stack_rows(rows):
+    if isinstance(rows[0], dict):
+        return {k: np.stack([r[k] for r in rows]) for k in rows[0]}
+    return np.stack(rows)
+
+
+def module_norm_layers(net):
+    return sorted({type(m).__name__ for m in torch.nn.Module.modules(net) if "Norm" in type(m).__name__})
+
+
+def warm_up(ag, algo, kind, seed):
+    """the agent goes through training mode and learns once on a small synthetic batch / rollout"""
+    from tensordict import TensorDict
+    r = np.random.default_rng(seed + 1)
+    ag.set_training_mode(True)
+    how = "learn"
+    try:
+        if algo in ("dqn", "cqn", "ddpg", "td3"):
+            B = 6
+            obs, nxt = stack_rows(consist_rows(kind, B, seed + 2)), stack_rows(consist_rows(kind, B, seed + 3))
+            t = (lambda x: {k: torch.as_tensor(v) for k, v in x.items()} if isinstance(x, dict) else torch.as_tensor(x))
+            act = torch.as_tensor(r.integers(0, 3, (B, 1))) if algo in ("dqn", "cqn") else \
+                torch.as_tensor(r.uniform(-1, 1, (B, 2)).astype(np.float32))
+            exp = TensorDict({"obs": t(obs), "action": act,
+                              "reward": torch.as_tensor(r.normal(size=(B, 1)).astype(np.float32)),
+                              "next_obs": t(nxt), "done": torch.zeros(B, 1)}, batch_size=[B])
+            ag.learn(exp)
+        elif algo == "ppo":
+            T, E = 3, 2
+            S, A, L, R, D, V = [], [], [], [], [], []
+            for t_ in range(T):
+                o = stack_rows(consist_rows(kind, E, seed + 10 + t_))
+                a, lp, _, v = ag.get_action(o)
+                S.append(o); A.append(a); L.append(lp); V.append(v)
+                R.append(r.normal(size=(E,)).astype(np.float32)); D.append(np.zeros(E, dtype=np.float32))
+            ag.learn((S, A, L, R, D, V, stack_rows(consist_rows(kind, E, seed + 20)), np.zeros(E, dtype=np.float32)))
+        elif algo in ("maddpg", "matd3"):
+            B = 6
+            st = {a: torch.as_tensor(stack_rows(consist_rows(kind, B, seed + 30 + i))) for i, a in enumerate(AGENTS)}
+            nx = {a: torch.as_tensor(stack_rows(consist_rows(kind, B, seed + 40 + i))) for i, a in enumerate(AGENTS)}
+            ac = {a: torch.as_tensor(r.uniform(-1, 1, (B, 2)).astype(np.float32)) for a in AGENTS}
+            rw = {a: torch.as_tensor(r.normal(size=(B, 1)).astype(np.float32)) for a in AGENTS}
+            dn = {a: torch.zeros(B, 1) for a in AGENTS}
+            ag.learn((st, ac, rw, nx, dn))
+        elif algo == "ippo":
+            T, E = 3, 2
+            keys = ("S", "A", "L", "R", "D", "V")
+            buf = {k: {a: [] for a in AGENTS} for k in keys}
+            for t_ in range(T):
+                o = {a: stack_rows(consist_rows(kind, E, seed + 50 + 7 * t_ + i)) for i, a in enumerate(AGENTS)}
+                act, lp, _, v = ag.get_action(o)
+                for a in AGENTS:
+                    buf["S"][a].append(o[a]); buf["A"][a].append(act[a]); buf["L"][a].append(lp[a])
+                    buf["V"][a].append(v[a]); buf["R"][a].append(r.normal(size=(E,)).astype(np.float32))
+                    buf["D"][a].append(np.zeros(E, dtype=np.float32))
+            nxt = {a: stack_rows(consist_rows(kind, E, seed + 90 + i)) for i, a in enumerate(AGENTS)}
+            ag.learn((buf["S"], buf["A"], buf["L"], buf["R"], buf["D"], buf["V"], nxt,
+                      {a: np.zeros(E, dtype=np.float32) for a in AGENTS}))
+    except Exception as e:  # noqa: BLE001  (format of learn() changed?  fall back, and say so in the evidence)
+        how = "forward"
+        note = f"consist warm-up: {algo}/{kind}.learn on synthetic data raised {type(e).__name__}: {str(e)[:100]}; " \
+               f"used train-mode forward passes instead"
+        if note not in WARM_NOTES:
+            WARM_NOTES.append(note)
+        nets = [n for n in (getattr(ag, "actor", None), getattr(ag, "critic", None)) if n is not None]
+        nets += list(getattr(ag, "actors", [])) + list(getattr(ag, "critics", []))
+        from agilerl.utils.algo_utils import preprocess_observation
+        sp = consist_space(kind)
+        for n in nets:
+            n.train()
+            for j in range(3):
+                x = preprocess_observation(stack_rows(consist_rows(kind, 5, seed + 100 + j)), sp)
+                try:
+                    with torch.no_grad():
+                        n(x)
+                except Exception:  # noqa: BLE001  (critics that need actions, …)
+                    break
+    return how
+
+
+def consist_agent(algo, kind, enc, seed=5):
+    from gymnasium import spaces
+    key = ("consist", algo, kind, enc, seed, tuple(AGENTS) if algo in CONSIST_MULTI else ())
+    if key not in _AGENTS:
+        torch.manual_seed(seed)
+        np.random.seed(seed)
+        sp, cfg = consist_space(kind), enc_cfg(kind, enc)
+        disc, cont = spaces.Discrete(3), spaces.Box(-1, 1, (2,), dtype=np.float32)
+        if algo == "dqn":
+            from agilerl.algorithms.dqn import DQN
+            ag = DQN(sp, disc, net_config=cfg)
+        elif algo == "cqn":
+            from agilerl.algorithms.cqn import CQN
+            ag = CQN(sp, disc, net_config=cfg)
+        elif algo == "ddpg":
+            from agilerl.algorithms.ddpg import DDPG
+            ag = DDPG(sp, cont, net_config=cfg)
+        elif algo == "td3":
+            from agilerl.algorithms.td3 import TD3
+            ag = TD3(sp, cont, net_config=cfg)
+        elif algo == "ppo":
+            from agilerl.algorithms.ppo import PPO
+            ag = PPO(sp, disc, net_config=cfg, batch_size=4)
+        elif algo == "maddpg":
+            from agilerl.algorithms.maddpg import MADDPG
+            ag = MADDPG([sp for _ in AGENTS], [cont for _ in AGENTS], agent_ids=list(AGENTS), net_config=cfg)
+        elif algo == "matd3":
+            from agilerl.algorithms.matd3 import MATD3
+            ag = MATD3([sp for _ in AGENTS], [cont for _ in AGENTS], agent_ids=list(AGENTS), net_config=cfg)
+        elif algo == "ippo":
+            from agilerl.algorithms.ippo import IPPO
+            ag = IPPO([sp for _ in AGENTS], [spaces.Discrete(2) for _ in AGENTS], agent_ids=list(AGENTS),
+                      net_config=cfg, batch_size=4)
+        else:
+            raise InfraError(algo)
+        how = warm_up(ag, algo, kind, seed)
+        main_net = ag.actors[0] if algo in CONSIST_MULTI else ag.actor
+        _AGENTS[key] = (ag, how, module_norm_layers(main_net))
+    return _AGENTS[key]
+
+
+class _Capture:
+    """records what a network returns while a public entry point runs (the Q-values get_action decides on)"""
+
+    def __init__(self, net):
+        self.net, self.out, self.h = net, [], None
+
+    def __enter__(self):
+        # (EvolvableNetwork.__call__ goes straight to forward(), so forward hooks do not fire: wrap forward)
+        orig = self.net.forward
+
+        def fwd(*a, **k):
+            o = orig(*a, **k)
+            self.out.append(o.detach().clone())
+            return o
+        self.net.__dict__["forward"] = fwd
+        return self
+
+    def __exit__(self, *a):
+        self.net.__dict__.pop("forward", None)
+
+
+def consist_report(ag, algo, rows, batched=True):
+    """per observation: the numbers the agent reports with exploration off, as an [n, k] array
+    (+ greedy actions where the algorithm has them).  `rows` = list of unbatched observations (single-agent) or
+    {agent: list of unbatched observations} (multi-agent); batched=False sends ONE observation without batch dim."""
+    def pack(rs):
+        return stack_rows(rs) if batched else rs[0]
+    if algo in ("dqn", "cqn"):
+        with _Capture(ag.actor) as cap:
+            act = ag.get_action(pack(rows), epsilon=0.0)
+        q = cap.out[-1].reshape(len(rows), -1).numpy()
+        return q, np.asarray(act).reshape(-1)
+    if algo in ("ddpg", "td3"):
+        return np.asarray(ag.get_action(pack(rows), training=False)).reshape(len(rows), -1), None
+    if algo == "ppo":
+        ag.set_training_mode(False)
+        torch.manual_seed(0)
+        v = ag.get_action(pack(rows))[3]
+        ag.set_training_mode(True)
+        return np.asarray(v).reshape(len(rows), -1), None
+    n = len(rows[AGENTS[0]])
+    obs = {a: pack(rows[a]) for a in AGENTS}
+    if algo in ("maddpg", "matd3"):
+        act, _ = ag.get_action(obs, training=False)
+        return np.concatenate([np.asarray(act[a]).reshape(n, -1) for a in AGENTS], axis=1), None
+    ag.set_training_mode(False)
+    torch.manual_seed(0)
+    v = ag.get_action(obs)[3]
+    ag.set_training_mode(True)
+    return np.concatenate([np.asarray(v[a]).reshape(n, -1) for a in AGENTS], axis=1), None
+
+
+def run_consist(case):
+    algo, kind, enc, n, seed = case["algo"], case["kind"], case["enc"], case["n"], case["seed"]
+    multi = algo in CONSIST_MULTI
+    if multi:
+        use_ids(case.get("ids"))
+    ag, how, norms = consist_agent(algo, kind, enc)
+    tags = [f"consist-{algo}-{kind}-{enc}", f"warm-{how}"] + [f"has-{x}" for x in norms]
+    tol = dict(atol=2e-5, rtol=1e-4)
+    problems = []
+    if multi:
+        rows = {a: consist_rows(kind, n, seed + 13 * i) for i, a in enumerate(AGENTS)}
+        pick = lambda idx: {a: [rows[a][j] for j in idx] for a in AGENTS}    # noqa: E731
+    else:
+        rows = consist_rows(kind, n, seed)
+        pick = lambda idx: [rows[j] for j in idx]                            # noqa: E731
+    what = {"dqn": "Q-values", "cqn": "Q-values", "ddpg": "greedy action", "td3": "greedy action",
+            "ppo": "value estimate", "maddpg": "greedy actions", "matd3": "greedy actions",
+            "ippo": "value estimates"}[algo]
+    full, act_full = consist_report(ag, algo, pick(list(range(n))))
+    if full.shape[0] != n or not np.isfinite(full).all():
+        return [], [], [f"{algo} reports an array of shape {full.shape} / non-finite numbers for {n} observation(s)"], tags
+    clear = None
+    if act_full is not None:
+        top = np.sort(full, axis=1)
+        clear = (top[:, -1] - top[:, -2]) > 1e-4
+
+    def compare(label, idx, batched=True):
+        got, act = consist_report(ag, algo, pick(idx), batched)
+        for k, j in enumerate(idx):
+            if not np.allclose(got[k], full[j], **tol):
+                problems.append(f"{algo} ({kind} observations, encoder with {norms or 'no norm layers'}): the {what} "
+                                f"reported for observation {j} {label} {np.round(got[k], 5).tolist()[:4]} differ from "
+                                f"those inside the batch of {n} {np.round(full[j], 5).tolist()[:4]}")
+                return False
+            if act is not None and clear[j] and int(act[k]) != int(act_full[j]):
+                problems.append(f"{algo}: the greedy action for observation {j} {label} is {int(act[k])}, inside the "
+                                f"batch of {n} it is {int(act_full[j])}")
+                return False
+        return True
+
+    ok = True
+    for j in range(n):
+        ok = ok and compare("alone (unbatched)", [j], batched=False)
+        ok = ok and compare("alone (batch of one)", [j])
+        if not ok:
+            break
+    if ok and n > 1:
+        sub = case.get("subset") or list(range(0, n, 2))
+        perm = case.get("perm") or list(reversed(range(n)))
+        ok = compare(f"in the sub-batch {sub}", sub) and compare(f"in the permuted batch {perm}", perm) \
+            and compare("in a batch that repeats it", [0, 0, n - 1, 0])
+    return [], [], problems, tags
+
+
 def run_noncontig(case):
     """a (step, env) tensor that is a transposed view (env-major storage) must be prepared like its contiguous copy"""
     from agilerl.utils.algo_utils import preprocess_observation
@@ -983,7 +1261,7 @@ def run_chfirst(case):
 
 RUNNERS = {"chfirst": run_chfirst, "prep": run_prep, "vect": run_vect, "batchdim": run_batchdim, "totensor": run_totensor,
            "ma_prep": run_ma_prep, "asm": run_asm, "critic": run_critic, "dqn_action": run_dqn_action,
-           "ma_action": run_ma_action, "noncontig": run_noncontig}
+           "ma_action": run_ma_action, "noncontig": run_noncontig, "consist": run_consist}
 
 
 def classify(case, problems):
@@ -1009,6 +1287,12 @@ def classify(case, problems):
         return F_AGENT_ORDER
     if op == "ma_action" and case["kind"] == "mbin" and "TypeError" in txt:
         return F_VECT_MB
+    # analysed at HEAD ffc42d0: DQN.get_action / PPO.get_action never put their networks in eval mode
+    if op == "consist" and case["enc"] == "norm" and case["kind"] in ("image", "dict") and problems:
+        if case["algo"] == "dqn":
+            return F_DQN_EVAL
+        if case["algo"] == "ppo":
+            return F_PPO_EVAL
     return None
 
 
@@ -1254,6 +1538,21 @@ def gen_cases(chk: Check):
         for _ in range(4 if quick else 40):
             cases.append({"op": "critic", "kind": kind, "ids": ids, "E": rng.choice([1, 2, 3, 4]),
                           "seed": rng.randrange(1 << 20), "raw": rng.random() < 0.5})
+    # batch-composition independence on real, trained agents for every encoder configuration
+    sweep = [("dqn", "image", "norm"), ("dqn", "dict", "norm"), ("dqn", "vector", "norm"), ("ppo", "image", "norm"),
+             ("ddpg", "image", "norm"), ("maddpg", "image", "norm"), ("matd3", "image", "norm"),
+             ("ippo", "image", "norm"), ("ippo", "vector", "norm")]
+    if not quick:
+        sweep += [("cqn", "image", "norm"), ("td3", "image", "norm"), ("ppo", "vector", "norm"),
+                  ("ppo", "dict", "norm"), ("ddpg", "dict", "norm"), ("maddpg", "vector", "norm"),
+                  ("matd3", "vector", "norm"), ("dqn", "image", "plain"), ("maddpg", "image", "plain"),
+                  ("ippo", "image", "plain"), ("ppo", "image", "plain")]
+    for algo, kind, enc in sweep:
+        for _ in range(2 if quick else 8):
+            n = rng.choice([2, 3, 4, 5])
+            cases.append({"op": "consist", "algo": algo, "kind": kind, "enc": enc, "n": n,
+                          "seed": rng.randrange(1 << 20), "subset": sorted(rng.sample(range(n), rng.randint(1, n - 1))),
+                          "perm": rng.sample(range(n), n)})
     # get_vect_dim on dict observations listed in the environment's (non-sorted) order, members of different rank
     pos = {"kind": "box", "shape": [3], "low": [-4] * 3, "high": [4] * 3, "sdtype": "float32"}
     imgf = {"kind": "box", "shape": [1, 2, 2], "low": [0] * 4, "high": [255] * 4, "sdtype": "float32"}
@@ -1377,15 +1676,15 @@ def run_suite(chk: Check, cases, account=True):
         suite = {"prep": "preprocess", "vect": "vect-dim", "batchdim": "batch-dim", "totensor": "to-tensor",
                  "ma_prep": "multi-agent-preprocess", "asm": "assemble-disassemble", "critic": "critic-stack",
                  "dqn_action": "agent-oracle", "ma_action": "agent-oracle", "noncontig": "to-tensor",
-                 "chfirst": "channels-first"}[case["op"]]
+                 "chfirst": "channels-first", "consist": "encoder-consistency"}[case["op"]]
         s = per_suite.setdefault(suite, [0, 0])
         s[0] += 1
         if account:
-            nontrivial = case["op"] in ("ma_prep", "asm", "critic", "ma_action", "dqn_action") or \
+            nontrivial = case["op"] in ("ma_prep", "asm", "critic", "ma_action", "dqn_action", "consist") or \
                 (case.get("form") not in ("unbatched", None)) or \
                 (case["op"] == "chfirst" and len(case["shape"]) >= 3)
             chk.case(case, nontrivial=nontrivial,
-                     sample={k: case[k] for k in ("op", "space", "form", "lead", "container", "algo", "kind", "ids", "E")
+                     sample={k: case[k] for k in ("op", "space", "form", "lead", "container", "algo", "kind", "enc", "ids", "E", "n")
                              if k in case} if chk.rng.random() < 0.05 or chk.evaluations < 2 else None,
                      tags=tags)
         if diff is None and not problems:
@@ -1425,8 +1724,11 @@ def run(chk: Check) -> None:
                 "normalisation on/off; the same through DQN.preprocess_observation; get_vect_dim / "
                 "maybe_add_batch_dim / obs_to_tensor; MADDPG and IPPO preprocess, assemble/disassemble, critic "
                 "stacking on real agents; greedy-action / value oracles under batch, environment and agent "
-                "permutations.  distinct = distinct case descriptions; non-trivial = batched in some way or "
-                "multi-agent")
+                "permutations; encoder-consistency sweep: DQN/CQN/DDPG/TD3/PPO/MADDPG/MATD3/IPPO built with "
+                "normalising encoders (CNN layer_norm=True -> BatchNorm, MLP layer_norm, multi-input), trained once, "
+                "then Q-values / greedy actions / value estimates of one observation alone vs inside batches of "
+                "different size, composition and order.  distinct = distinct case descriptions; non-trivial = "
+                "batched in some way or multi-agent")
     chk.assumptions = [
         "inputs are integer- or quarter-valued so float32 conversion is exact; min-max scaling by a non-dyadic range "
         "is compared with the exact rational up to correct float32 rounding (relative 2^-24)",
@@ -1442,6 +1744,7 @@ def run(chk: Check) -> None:
         cases.append(c.get("case", c))
     cases += gen_cases(chk)
     run_suite(chk, cases)
+    chk.notes.extend(WARM_NOTES)
     if chk.tier == "thorough":
         selftest(chk)
 
@@ -1532,10 +1835,24 @@ def selftest(chk: Check) -> None:
         return known.index(agent_id) if agent_id in known else len(known)
 
     for f in sorted((ROOT / "corpus" / "C15").glob("*.json")):
-        if f.name.startswith(("purity_", "vectdim_dict_", "agent_ids_")):
+        if f.name.startswith(("purity_", "vectdim_dict_", "agent_ids_", "consist_maddpg")):
             c = json.loads(f.read_text())
             mini.append(c.get("case", c))
-    faults = [("one-hot off by one", au, "F", FProxy(orig_F)),
+    from agilerl.algorithms.maddpg import MADDPG
+    orig_ma_get_action = MADDPG.get_action
+
+    def maddpg_get_action_without_eval(self, *a, **k):
+        for act in self.actors:
+            act.__dict__["eval"] = (lambda act=act: act)         # "no_grad already makes it inference-only"
+        try:
+            return orig_ma_get_action(self, *a, **k)
+        finally:
+            for act in self.actors:
+                act.__dict__.pop("eval", None)
+
+    faults = [("MADDPG.get_action leaves the actors in train mode (BatchNorm uses batch statistics)", MADDPG,
+               "get_action", maddpg_get_action_without_eval),
+              ("one-hot off by one", au, "F", FProxy(orig_F)),
               ("batch dimension inferred wrongly for a batch of one", au, "maybe_add_batch_dim", mabd_batch_of_one),
               ("normalisation with a wrong bound", au, "apply_image_normalization", norm_wrong_bound),
               ("normalisation written into the caller's buffer", au, "apply_image_normalization", norm_in_place),
